@@ -9,8 +9,9 @@ from ..facade_eval import *
 from ..rt import *
 from ..standin import StandIn
 from ..values import *
-from .c03 import make_scsi_device
+from .c03 import make_scsi_device, slot, put
 from spec import cdb as refcdb
+from spec import xcopy as refxcopy
 from spec import facade as reffacade
 from spec import opcodes as refop
 
@@ -22,6 +23,8 @@ def replace_domain(args, name, dom):
 
 
 def check(prog, run):
+    from .c03 import prime_layouts
+    prime_layouts(prog)
     I = prog.I
     _sc = prog.cls(CMD_MOD, "SCSICommand")
     base_mbe = _sc.injected.get("MissingBlocksizeException") if hasattr(_sc, "injected") else None
@@ -180,6 +183,14 @@ def check_xcopy(prog, run):
         cases.append(("target with unknown descriptor type code", [t], [], "ValueError"))
         t = copy.deepcopy(good_target); t["peripheral_device_type"] = 0x77
         cases.append(("target with unknown device type", [t], [], "ValueError"))
+        # every peripheral device type: the ones this version of the standard defines descriptor parameters for are accepted,
+        # every other one is refused (the two versions differ: 04h and 07h are SPC-4 only)
+        for dt in range(32):
+            t = copy.deepcopy(good_target); t["peripheral_device_type"] = dt
+            if dt not in refxcopy.BLOCK_TYPES:
+                t["device_type_specific_parameters"] = {}
+            cases.append(("target with peripheral device type %02Xh" % dt, [t], [],
+                          None if dt in refxcopy.DEVICE_TYPES[facade_name] else "ValueError"))
         t = copy.deepcopy(good_target); t["lu_id_type"] = 1
         cases.append(("target with unsupported lu_id_type", [t], [], "ValueError"))
         s = copy.deepcopy(good_segment); s["bogus_key"] = 1
@@ -188,6 +199,29 @@ def check_xcopy(prog, run):
         cases.append(("segment with unknown descriptor type code", [], [s], "ValueError"))
         s = copy.deepcopy(good_segment); del s["descriptor_type_code"]
         cases.append(("segment without descriptor type code", [], [s], "ValueError"))
+        # ... and the same with every field the descriptor kind knows spelled out next to the unknown key (a validator that
+        # looks at the missing keys, or at the first key only, accepts these), and with near-miss / non-string keys
+        def table_keys(prefixes):
+            out = []
+            for name, v in sorted(cls.attrs.items()):
+                if any(name.startswith(pf) for pf in prefixes) and isinstance(v, dict) and v \
+                        and all(isinstance(k, str) and isinstance(e, list) for k, e in v.items()):
+                    out.append((name, list(v)))
+            return out
+        for name, keys in table_keys(("_target_descriptor_bits", "_cscd_descriptor_bits")):
+            t = copy.deepcopy(good_target)
+            for k in keys:
+                t.setdefault(k, 0)
+            for bogus in ("bogus_key", "Lu_id_type", 7):
+                tt = dict(t); tt[bogus] = 1
+                cases.append(("target with every key of %s and unknown key %r" % (name, bogus), [tt], [], "ValueError"))
+        for name, keys in table_keys(("_segment_descriptor_bits_block_to_block",)):
+            sg_ = copy.deepcopy(good_segment)
+            for k in keys:
+                sg_.setdefault(k, 0)
+            for bogus in ("bogus_key", "CAT", 7):
+                ss = dict(sg_); ss[bogus] = 1
+                cases.append(("segment with every key of %s and unknown key %r" % (name, bogus), [], [ss], "ValueError"))
         scsi_cls = prog.cls(SCSI_MOD, "SCSI")
         enum = prog.module(ENUM_MOD).env["spc"]
         for label, targets, segments, want in cases:
@@ -195,10 +229,10 @@ def check_xcopy(prog, run):
             try:
                 def th(targets=targets, segments=segments):
                     dev = make_scsi_device(prog)
-                    dev.attrs["_opcodes"] = enum
+                    put(prog, dev, "opcodes", enum)
                     sobj = Instance(scsi_cls)
                     sobj.attrs["device"] = dev
-                    sobj.attrs["_blocksize"] = 0
+                    put(prog, sobj, "blocksize", 0)
                     bm = I.get_attr(sobj, facade_name, None, _F())
                     return I.call(bm, [], {tkey: copy.deepcopy(targets), "segment_descriptor_list": copy.deepcopy(segments)}, None, _F())
                 ps = I.explore(th, max_paths=64)
@@ -208,7 +242,13 @@ def check_xcopy(prog, run):
             for p in ps:
                 sg = [e for e in p.events if e["kind"] == "external-call" and e["name"] == "sgio.execute"]
                 ec = p.raised.exc_class() if not p.returned else None
-                if p.returned or ec is None or ec.name != want:
+                if want is None:
+                    if p.returned:
+                        run.ok("no-spurious-refusal", c)
+                    else:
+                        run.violation("no-spurious-refusal", c, "%s is refused (%s) although the standard defines it for this command"
+                                      % (label, p.raised.describe()), file, cls.node.lineno, cls.qualname)
+                elif p.returned or ec is None or ec.name != want:
                     run.violation("xcopy-descriptor-refused", c, "%s: %s" % (label, "accepted" if p.returned else "raises " + p.raised.describe()),
                                   file, cls.node.lineno, cls.qualname)
                 elif sg:
@@ -220,10 +260,10 @@ def check_xcopy(prog, run):
         try:
             def th2():
                 dev = make_scsi_device(prog)
-                dev.attrs["_opcodes"] = enum
+                put(prog, dev, "opcodes", enum)
                 sobj = Instance(scsi_cls)
                 sobj.attrs["device"] = dev
-                sobj.attrs["_blocksize"] = 0
+                put(prog, sobj, "blocksize", 0)
                 bm = I.get_attr(sobj, facade_name, None, _F())
                 return I.call(bm, [], {tkey: [copy.deepcopy(good_target)], "segment_descriptor_list": [copy.deepcopy(good_segment)]}, None, _F())
             ps = I.explore(th2, max_paths=64)
@@ -256,10 +296,10 @@ def check_transport_id(prog, run):
         try:
             def th(d=d):
                 dev = make_scsi_device(prog)
-                dev.attrs["_opcodes"] = enum
+                put(prog, dev, "opcodes", enum)
                 sobj = Instance(scsi_cls)
                 sobj.attrs["device"] = dev
-                sobj.attrs["_blocksize"] = 0
+                put(prog, sobj, "blocksize", 0)
                 bm = I.get_attr(sobj, "persistentreserveout", None, _F())
                 return I.call(bm, [0x07], {"transport_id": dict(d), "reservation_key": Sym.param("rk", 64)}, None, _F())
             ps = I.explore(th, max_paths=64)
